@@ -127,7 +127,7 @@ fn full_alpide_chip_order_ib() {
     assert!(r.is_err() == (id != a.lane_number), "[C13][C01][C02] inner-barrel chip id must equal its lane (E9005)");
 }
 
-// @harness id=bnd_alpide_chip_order_ob props=C20,C13,C01,C02,C04 kind=bnd tier=manual bound=chips<=3,orders=2x3 fns=LaneAlpideFrameAnalyzer::check_chip_id_order stubs=alloc::fmt::format
+// @harness id=bnd_alpide_chip_order_ob props=C20,C13,C01,C02,C04 kind=bnd tier=quick bound=chips<=3,orders=2x3 fns=LaneAlpideFrameAnalyzer::check_chip_id_order stubs=alloc::fmt::format
 // Outer barrel with a configured list of valid chip orders: the lane is reported (E9005) exactly when the
 // sequence of chip ids seen in the lane equals none of the configured orders; without a configured list never.
 #[kani::proof]
@@ -137,7 +137,7 @@ fn bnd_alpide_chip_order_ob() {
     let o: [u8; 6] = kani::any();
     let orders: [Vec<u8>; 2] = [vec![o[0], o[1], o[2]], vec![o[3], o[4], o[5]]];
     let configured: bool = kani::any();
-    let mut a = LaneAlpideFrameAnalyzer::new(Layer::Outer, None, if configured { Some(&orders[..]) } else { None });
+    let mut a = LaneAlpideFrameAnalyzer::new(Layer::Outer, if configured { Some(&orders[..]) } else { None }, None);
     let n: usize = kani::any();
     kani::assume(n >= 1 && n <= 3);
     let ids: [u8; 3] = kani::any();
